@@ -25,6 +25,25 @@ def correspondence(ctx):
                 stepcorr.one_step(ctx, spec, u)
                 ctx.bump(name)
                 ctx.bump(f"dt={spec.dt}")
+    # every documented FORM of the coefficients (scalar / per-axis vector / full SPD matrix), not whichever the seed draws
+    for name in ("Advection", "Diffusion", "AdvectionDiffusion"):
+        for D in (2, 3):
+            N = int(stepcorr.grid_sizes("quick", D)[int(rng.integers(0, 3))])
+            st0 = rng.bit_generator.state
+            S.FORCED_FLAGS.clear()
+            del S.DRAWN_CHOICES[:]
+            R[name](rng, D, N, 0)
+            drawn = list(dict.fromkeys(S.DRAWN_CHOICES))
+            import itertools
+            for combo in itertools.product(*[range(n) for _, n in drawn]):
+                rng.bit_generator.state = st0
+                S.FORCED_FLAGS.clear()
+                S.FORCED_FLAGS.update({k: v for (k, _), v in zip(drawn, combo)})
+                spec = R[name](rng, D, N, 0)
+                spec.dt = float(rng.choice([1.0, 37.0]))
+                stepcorr.one_step(ctx, spec, S.random_state(rng, 1, D, N, "noise"))
+                ctx.bump(f"{name}:forms")
+            S.FORCED_FLAGS.clear()
     ctx.sample({"classes": NONAMP, "states": "white noise", "dts": [1.0, 37.0, 1e3, 1e6]})
 
 
@@ -55,6 +74,26 @@ def probe_norm(name, D, N, dt, seed, steps=1):
         ok = ok and float(np.linalg.norm(v)) < float(np.linalg.norm(uz))
     res["ok"] = bool(ok)
     return res
+
+
+def probe_norm_anisotropic(name, D, N, dt, seed):
+    """strongly anisotropic SPD diffusivity matrices (large off-diagonal entries): still PSD, so still no amplification"""
+    import jax.numpy as jnp
+    import exponax as ex
+    rng = np.random.default_rng(seed)
+    a = float(rng.uniform(0.02, 0.06))
+    rho = float(rng.choice([0.9, -0.85]))
+    A = a * ((1 - rho) * np.eye(D) + rho * np.ones((D, D))) if rho > 0 else a * (np.eye(D) + rho / (D - 1 + 1e-9) * (np.ones((D, D)) - np.eye(D)))
+    assert np.all(np.linalg.eigvalsh(A) > 0)
+    L = float(rng.choice([1.0, 2 * np.pi]))
+    if name == "Diffusion":
+        st = ex.stepper.Diffusion(D, L, N, dt, diffusivity=jnp.asarray(A))
+    else:
+        st = ex.stepper.AdvectionDiffusion(D, L, N, dt, velocity=jnp.asarray(rng.uniform(-1, 1, D)), diffusivity=jnp.asarray(A))
+    u = rng.normal(size=(1,) + (N,) * D)
+    v = np.asarray(st(jnp.asarray(u)))
+    ratio = float(np.linalg.norm(v) / np.linalg.norm(u)) if np.all(np.isfinite(v)) else float("inf")
+    return {"ok": bool(ratio <= 1 + 1e-12), "ratio": ratio, "matrix": A.tolist(), "L": L}
 
 
 def probe_wave_energy(D, N, dt, seed):
@@ -91,6 +130,14 @@ def oracle(ctx, deep):
                     fails.append({"key": f"C11:norm:{name}", "what": f"{name} (D={D}, N={N}, dt={dt}) amplifies / does not preserve as documented: {r}",
                                   "probe": "norm", "args": {"name": name, "D": D, "N": N, "dt": dt, "seed": ctx.seed + 2}, "observed": r})
                     break
+    for name in ("Diffusion", "AdvectionDiffusion"):
+        for (D, N) in ([(2, 7), (2, 8), (3, 5)] if not deep else [(2, 6), (2, 7), (2, 8), (2, 9), (3, 4), (3, 5)]):
+            for dt in (0.1, 10.0):
+                r = probe_norm_anisotropic(name, D, N, dt, ctx.seed + D + N)
+                ctx.count(("oracle_norm_anisotropic", name, D, N, dt))
+                if not r["ok"]:
+                    fails.append({"key": f"C11:norm-anisotropic:{name}", "what": f"{name} with a strongly anisotropic SPD diffusivity (D={D}, N={N}, dt={dt}) amplifies white noise: {r}"[:400],
+                                  "probe": "norm_anisotropic", "args": {"name": name, "D": D, "N": N, "dt": dt, "seed": ctx.seed + D + N}, "observed": r})
     for (D, N) in cases[:5]:
         r = probe_wave_energy(D, N, 0.7, ctx.seed)
         ctx.count(("oracle_wave_energy", D, N))
@@ -106,4 +153,4 @@ def oracle(ctx, deep):
 
 
 def replay(probe, args):
-    return {"norm": probe_norm, "wave_energy": probe_wave_energy}[probe](**args)
+    return {"norm": probe_norm, "wave_energy": probe_wave_energy, "norm_anisotropic": probe_norm_anisotropic}[probe](**args)
